@@ -175,6 +175,20 @@ func lifeScenario(kind, what string, rng *rand.Rand) {
 		doClose(1)
 		wg.Wait()
 		s.fault.Store("")
+	case "eol2": // a query that is never answered, then the connection's remaining IDs are used up by answered ones
+		// (the last of them releases a connection that is exhausted but not empty), then Close: the waiting
+		// exchange fails and the connection is closed
+		s.fault.Store("noreply")
+		wg.Add(1)
+		go func() { defer wg.Done(); one(8*time.Second, "during") }()
+		time.Sleep(80 * time.Millisecond)
+		s.fault.Store("")
+		if !exhaustIDs(u, s, sc, rng) {
+			s.fault.Store("")
+		}
+		time.Sleep(50 * time.Millisecond)
+		doClose(1)
+		wg.Wait()
 	case "timeout-then-close": // an exchange timed out on a healthy connection, then Close
 		one(time.Second, "before")
 		s.fault.Store("noreply")
@@ -195,7 +209,7 @@ func modeLife(thorough bool) {
 	onlyEvents = map[string]bool{}
 	rng := rand.New(rand.NewSource(seed))
 	kinds := []string{"udp", "tcp", "tcp+pipeline", "tls", "tls+pipeline", "https", "quic", "h3"}
-	whats := []string{"idle", "inflight", "latedial", "timeout-then-close", "blackhole", "hsstall", "badcert", "eol"}
+	whats := []string{"idle", "inflight", "latedial", "timeout-then-close", "blackhole", "hsstall", "badcert", "eol", "eol2"}
 	// sequential: the socket census is process wide
 	for _, k := range kinds {
 		for _, w := range whats {
@@ -212,6 +226,9 @@ func modeLife(thorough bool) {
 				continue
 			}
 			if w == "eol" && !(k == "tcp+pipeline" || (thorough && k == "tls+pipeline")) {
+				continue
+			}
+			if w == "eol2" && k != "tcp+pipeline" {
 				continue
 			}
 			lifeScenario(k, w, rng)
